@@ -151,7 +151,11 @@ if prog.get("main_script"):
                  f"ex = get_reusable_executor(max_workers={prog['main_script']['workers']}, timeout=5)\n"
                  "sq = lambda x: x * x + OFFSET\nOFFSET = 3\n"
                  f"print('RESULT', sum(ex.map(sq, range({prog['main_script']['n']}))))\n")
-    r = subprocess.run([sys.executable, script], capture_output=True, text=True, timeout=120, stdin=subprocess.DEVNULL)
+    if prog["main_script"].get("as_module"):
+        cmdl = [sys.executable, "-m", "user_script"]       # the application is started as `python -m app`
+    else:
+        cmdl = [sys.executable, script]
+    r = subprocess.run(cmdl, capture_output=True, text=True, timeout=120, stdin=subprocess.DEVNULL, cwd=outdir)
     lines = open(side).read().splitlines() if os.path.exists(side) else []
     emit(part="main", rc=r.returncode, stdout=r.stdout[-200:], stderr=r.stderr[-300:], side_effects=len(lines),
          expected=sum(x * x + 3 for x in range(prog["main_script"]["n"])))
